@@ -333,7 +333,7 @@ class Exec(object):
         return cache[key]
 
     workdir = "/tmp/pyvc_q"
-    quick_timeout_ms = 250
+    quick_timeout_ms = 150
 
     def quick(self, st, fact):
         """In-process, time-boxed entailment test used to prune type-dispatch noise.  Facts that mention
@@ -355,6 +355,12 @@ class Exec(object):
         if _has_string_ops(f, sc):
             cache[key] = False
             return False
+        # a fact that keeps failing is not retried on every path (sound: "no" only costs a larger encoding)
+        fails = self.__dict__.setdefault("_quick_fails", {})
+        nf, ns = fails.get(f.get_id(), (0, 0))
+        if nf >= (2 if ns == 0 else 6):
+            cache[key] = False
+            return False
         # hypotheses that use string operations are dropped (sound: fewer hypotheses)
         hyps = [c for c in st.conj if not _has_string_ops(c, sc)]
         roots = hyps + [f]
@@ -370,6 +376,7 @@ class Exec(object):
         r = s.check() == z3.unsat
         self.__dict__.setdefault("_keepalive", []).append((roots, f))
         cache[key] = r
+        fails[f.get_id()] = (nf, ns + 1) if r else (nf + 1, ns)
         self.quick_queries = getattr(self, "quick_queries", 0) + 1
         return r
 
